@@ -229,7 +229,7 @@ def run_cases(ctx, engine, n=0, seed=1, cases_file=None, origin="generated", tag
             one = os.path.join(ctx.dir, "%s.crash.cases" % engine)
             with open(one, "w") as f:
                 f.write(payload + "\n")
-            for attempt in range(5):
+            for attempt in range(25):
                 cmd2 = [ctx.hbin, "run", engine, "-seed", str(seed), "-n", "0", "-req", req + ".crash", "-obs",
                         obs + ".crash", "-tier", ctx.tier, "-cases", one]
                 p2 = subprocess.run(cmd2, stdout=subprocess.PIPE, stderr=subprocess.PIPE, text=True, env=env, timeout=600)
@@ -237,7 +237,7 @@ def run_cases(ctx, engine, n=0, seed=1, cases_file=None, origin="generated", tag
                     m = re.search(r"^(fatal error: .*|panic: .*|SIGSEGV.*)$", p2.stdout + p2.stderr, re.M)
                     why = m.group(1) if m else "process exited with rc=%d" % p2.returncode
                     return [Case(engine, payload, "CRASH " + why[:200], "-", "-", "crash")], stats
-            tail = "case running when the process died (did not crash again in 5 runs alone): %s\n%s" % (payload[:500], tail)
+            tail = "case running when the process died (did not crash again in 25 runs alone): %s\n%s" % (payload[:500], tail)
         ctx.build_failures.append(("harness run %s crashed (rc=%d)" % (engine, p.returncode), tail[-4000:]))
         return [], stats
     try:
